@@ -38,7 +38,7 @@ def gen_case(rnd, wf=True):
             cmds.append(["shutdown"]); shutdown_sent = rnd.random() < 0.8
         elif r < 0.96:
             cmds.append(["run", []])
-        elif not wf and r < 0.98:
+        elif not wf and r < 0.99:
             cmds.append(["runall"])
     if rnd.random() < 0.75 and not shutdown_sent:
         cmds.append(["shutdown"])
@@ -89,6 +89,20 @@ def monitor(job, trace):
     none_pos = [k for k, (_i, nx) in enumerate(ran) if nx == []]
     if any(k != len(ran) - 1 for k in none_pos):
         bad.append(({"kind": "nextitem-none-not-last"}, {"ran": ran}))
+    cmds = [op[1] for op in job["ops"] if isinstance(op, list)]
+    if not any(c[0] == "steal" for c in cmds):
+        # no withdrawals at all (any stream, repeated indices and run-all included): the worker runs exactly what was
+        # delivered before the first shutdown/end, in that order (a prefix of it while it has not exited)
+        given = []
+        for c in cmds:
+            if c[0] in ("shutdown", "end"):
+                break
+            given += list(c[1]) if c[0] == "run" else list(range(job["n"])) if c[0] == "runall" else []
+        got = [i for i, _ in ran]
+        stopped = bool(set(job["stops"]) & set(got))
+        if got != given[:len(got)] or (exited and not stopped and len(got) != len(given)
+                                       and any(c[0] in ("shutdown", "end") for c in cmds)):
+            bad.append(({"kind": "lost-or-extra-test"}, {"ran": got, "given": given, "exited": exited}))
     if job.get("wf"):
         # assignment order: ran is a subsequence of the delivered order
         delivered = []
